@@ -1,5 +1,49 @@
 """Claimed checks -> MANIFEST.json (bin/mkmanifest).  One entry per property that has a validated check."""
 CHECKS = {
+    'C05': dict(
+        category='other',
+        text='Necessary structural conditions for round-tripping: per algorithm the signer and verifier of each provider, and the two '
+             'providers, select the same RFC 7518 hash/scheme (PSS: sign salt = digest length, verify auto); the ECDSA DER <-> fixed-width '
+             'r||s conversion ends r at ceil(bits/8) and s at twice that in a zeroed buffer for every ordering of the integer sizes '
+             '(linear forms), the verifier splitting at the same width; the builder signs exactly the text it emits and the checker '
+             'authenticates exactly the text it parses; the builder\'s JSON setter is not more permissive than the checker\'s parser.',
+        design_ref='DESIGN.md section 3 C05',
+        note='NOT decided: that a token actually verifies (runtime crypto), JSON equality through jansson dump/load, the base64 round trip. '
+             'A change that breaks round-tripping without breaking one of these conditions is not seen.',
+        technique='sibling agreement + linear-form layout check + string provenance by abstract interpretation',
+    ),
+    'C10': dict(
+        category='other',
+        text='Token text provenance in jwt_encode (b64url(dump(headers)).b64url(dump(claims)).[b64url(sign(exactly that text))], empty third '
+             'part only for alg none); jwt_head_setup decision table (alg forced, typ defaulted on signed tokens only); iat/nbf/exp = '
+             'time(NULL) [+ offset] under their bits with replace for all 8 masks; time_offset / enable_iat / defaults; per-token trees are '
+             'deep copies and nothing reachable from generate writes the builder; private-key requirement and post-callback admission '
+             '(shared with C02).',
+        design_ref='DESIGN.md section 3 C10',
+        note='NOT decided: that jansson\'s dump is valid JSON and that base64 text decodes back; clock behaviour.',
+        technique='string-provenance abstract interpretation + decision tables + effect analysis',
+    ),
+    'C15': dict(
+        category='other',
+        text='Decision tables of __setter/__getter/__deleter over value type x name {NULL, "", x} x exists x replace x value pointer x JSON '
+             'parse outcome x jansson result: returned code, value->error and the exact sequence of mutating jansson calls per cell against '
+             'the operation table (EXIST/INVALID => no mutation; replace => delete then set; nameless JSON => update/update_missing; no '
+             'JSON_DECODE_ANY); dispatch of the public wrappers to the right container.',
+        design_ref='DESIGN.md section 3 C15, appendix A.6',
+        note='NOT decided: jansson\'s map semantics and therefore sequences of operations (histories) - only each operation\'s decision '
+             'structure.',
+        technique='decision-table extraction by abstract interpretation with recorded effect sequences',
+    ),
+    'C16': dict(
+        category='other',
+        text='Structural clauses: items linked only by list_add_tail(&item->node,&set->head) in jwks_item_add, unlinked only in __item_free, '
+             'never freed inside a non-safe iteration; __item_free releases every owning field with its own family for oct and provider-made '
+             'items under either current provider, unlinks before releasing and uses nothing afterwards; jwks_item_free_bad frees exactly '
+             'flagged items and returns the number freed (per-iteration relation); find_bykid returns exact matches of its argument only.',
+        design_ref='DESIGN.md section 3 C16',
+        note='NOT decided: list semantics under arbitrary operation sequences, index arithmetic over the walk, heap-shape invariants of ll.h.',
+        technique='who-may-call rule + ownership typestate on the destructor + per-iteration counter relation',
+    ),
     'C08': dict(
         category='other',
         text='Table and sibling agreement for the JWK importer: which member feeds which provider parameter is extracted from the '
